@@ -133,6 +133,8 @@ pub const CFGS_LOCKS: [TxCfg; 9] = [
 ];
 
 struct Setup {
+    /// every signature is made for another transaction (same inputs, nLockTime + 1): well-formed, invalid here
+    stale_sigs: bool,
     /// the signer works from the PSBT's own fields (sighash_msg) instead of the real previous outputs
     sign_from_psbt: bool,
     cases: Vec<DescCase>,
@@ -222,7 +224,7 @@ fn setup_opt(pair: &[D; 2], cfg: TxCfg, partial_updates: bool) -> Option<Setup> 
     }
     actions.push(Act::Finalize);
     actions.push(Act::FinalizeMall);
-    Some(Setup { sign_from_psbt: cfg.name == "forged-utxo" || cfg.name == "forged-vout", cases, psbt0, tx, prevouts, actions })
+    Some(Setup { stale_sigs: cfg.name == "stale-signatures", sign_from_psbt: cfg.name == "forged-utxo" || cfg.name == "forged-vout", cases, psbt0, tx, prevouts, actions })
 }
 
 fn spend_of(s: &Setup, idx: usize) -> Spend { Spend { tx: s.tx.clone(), idx, prevouts: s.prevouts.clone() } }
@@ -240,7 +242,10 @@ fn apply(s: &Setup, p: &Psbt, a: &Act) -> Result<(Psbt, Result<(), String>), Str
             }
             Act::AddSig(i, kl, leaf) => {
                 let c = &s.cases[*i];
-                let sp = spend_of(s, *i);
+                let mut sp = spend_of(s, *i);
+                if s.stale_sigs {
+                    sp.tx.lock_time = LockTime::from_consensus(sp.tx.lock_time.to_consensus_u32() + 1);
+                }
                 let k = key(kl);
                 match (&c.sign, leaf) {
                     (SignCtx::Ecdsa { script_code, sigver }, _) => {
@@ -993,6 +998,11 @@ pub fn run(tier: Tier) -> i32 {
     let forged = TxCfg { name: "forged-utxo", ..CFG_DEFAULT };
     for (a, b) in [("wpkh", "wsh-multi"), ("sh-wpkh", "tr-1leaf"), ("sh-wsh-sortedmulti", "pkh")] {
         jobs.push((format!("{}+{}@forged-utxo", a, b), [relabel(&fam[idx(a)].1, 0), relabel(&fam[idx(b)].1, 1)], depth.min(6), forged));
+    }
+    // signatures made for another transaction: nothing that needs a signature may be finalized
+    let stale = TxCfg { name: "stale-signatures", ..CFG_DEFAULT };
+    for (a, b) in [("wpkh", "tr-key"), ("tr-1leaf", "wsh-multi"), ("tr-3leaves", "sh-wpkh"), ("pkh", "wsh-or-malleable")] {
+        jobs.push((format!("{}+{}@stale-signatures", a, b), [relabel(&fam[idx(a)].1, 0), relabel(&fam[idx(b)].1, 1)], depth.min(6), stale));
     }
     // inputs whose outpoint names an index the funding transaction does not have
     let forged_vout = TxCfg { name: "forged-vout", ..CFG_DEFAULT };
